@@ -187,6 +187,9 @@ def main():
     assert not os.path.abspath(scratch).startswith(("/repo", "/verif"))
     os.makedirs(scratch, exist_ok=True)
     cands = candidates("/repo", only)
+    if os.environ.get("MUTSWEEP_LINES"):                 # debugging aid: only mutants of these line numbers
+        want = set(int(x) for x in os.environ["MUTSWEEP_LINES"].split(","))
+        cands = [c for c in cands if c["line"] in want]
     r = random.Random(seed)
     by_file = {}
     for c in cands:
